@@ -112,3 +112,14 @@ package icmp
 //@   entry row init:  [call rand.Read(bind_p)] when len(p) == 48 -> loop 0
 //@   loop 0 row apply: [call o(bind_x)] when fresh(x) -> continue
 //@   loop 0 row done:  [] when fresh(ret) -> exit
+
+// C06: parser registration (see pkg/scan/arp): first layer Ethernet, or IPv4 in VPN mode; own Ethernet/IPv4/ICMPv4 structs
+//@ func NewPacketProcessor
+//@   props C06 C03
+//@   observe gopacket.NewDecodingLayerParser
+//@   entry row eth: [call gopacket.NewDecodingLayerParser(layers.LayerTypeEthernet, bind_ds) as (pr)]
+//@                     when !vpnMode && len(ds) == 3 && isptr(ds[0], layers.Ethernet) && asptr(ds[0], layers.Ethernet) == addr(ret.rcvEth) && isptr(ds[1], layers.IPv4) && asptr(ds[1], layers.IPv4) == addr(ret.rcvIP)
+//@                       && isptr(ds[2], layers.ICMPv4) && asptr(ds[2], layers.ICMPv4) == addr(ret.rcvICMP) && ret.parser == pr && pr.IgnoreUnsupported && !pr.IgnorePanic && ret.results == results && ret.scanType == scanType -> exit
+//@   entry row vpn: [call gopacket.NewDecodingLayerParser(layers.LayerTypeIPv4, bind_ds) as (pr)]
+//@                     when vpnMode && len(ds) == 3 && isptr(ds[0], layers.Ethernet) && asptr(ds[0], layers.Ethernet) == addr(ret.rcvEth) && isptr(ds[1], layers.IPv4) && asptr(ds[1], layers.IPv4) == addr(ret.rcvIP)
+//@                       && isptr(ds[2], layers.ICMPv4) && asptr(ds[2], layers.ICMPv4) == addr(ret.rcvICMP) && ret.parser == pr && pr.IgnoreUnsupported && !pr.IgnorePanic && ret.results == results && ret.scanType == scanType -> exit
